@@ -92,9 +92,14 @@ func VH_C02_FetchMessageSet(version, magic, nm int) {
 		ts := int64(1600000000000 + 1000*i)
 		k := vhBytes("key", 1)
 		v := vhBytes("value", 2)
-		wire = append(wire, vhEncMessage(off, int8(magic), 0, ts, k, v)...)
-		if magic == 0 {
-			ts = 0
+		m := int8(magic)
+		if magic == 3 {
+			// a log written across the upgrade to format 1 and back: formats alternate 1,0,1,... inside one set
+			m = int8(1 - i%2)
+		}
+		wire = append(wire, vhEncMessage(off, m, 0, ts, k, v)...)
+		if m == 0 {
+			ts = 0 // format 0 carries no timestamp: the message's time is the zero time
 		}
 		stored = append(stored, vhStored{offset: off, ts: ts, key: k, value: v})
 		off++
@@ -129,8 +134,10 @@ func VH_C02_FetchMessageSet(version, magic, nm int) {
 			break
 		}
 		vhAssert(vhAll(got[i].Offset == want[i].offset, vhBytesEq(got[i].Key, want[i].key), vhBytesEq(got[i].Value, want[i].value)), "message-content-in-order")
-		if magic == 1 {
+		if want[i].ts != 0 {
 			vhAssert(got[i].Time.Unix()*1000+int64(got[i].Time.Nanosecond())/1000000 == want[i].ts, "message-timestamp")
+		} else {
+			vhAssert(got[i].Time.IsZero(), "format-0-message-has-the-zero-time")
 		}
 	}
 	no, _ := c.Offset()
